@@ -34,6 +34,8 @@ VARIABLES sch, idx, topo, hs,      \* configuration, fixed by Init
           queue, running,          \* mutation queue, drain in progress
           veto, nest,              \* handler script of the current call
           pan, stall,              \* handlers that panic / overrun their timeout
+          dead,                    \* subset of stall: the handler does not return within
+                                   \* HandlerDeadline either (machine.go:2437-2465)
           wedged,                  \* the handler goroutine is gone
           backoff,                 \* Machine.Backoff(): a HandlerDeadline was hit recently
           first,                   \* result of the first transition of the drain
@@ -46,7 +48,7 @@ VARIABLES sch, idx, topo, hs,      \* configuration, fixed by Init
 cfgVars   == <<sch, idx, topo, hs>>
 machVars  == <<active, clock, qtick>>
 vars == <<sch, idx, topo, hs, active, clock, qtick, queue, running, veto, nest,
-          pan, stall, wedged, backoff,
+          pan, stall, dead, wedged, backoff,
           first, atCall, firstTx, prev, obs, verdict, ncalls>>
 
 None == [kind |-> "none"]
@@ -104,7 +106,7 @@ InitWith(s, i, t, h) ==
   /\ qtick = 1
   /\ queue = <<>> /\ running = FALSE
   /\ veto = {} /\ nest = <<>>
-  /\ pan = {} /\ stall = {} /\ wedged = FALSE /\ backoff = FALSE
+  /\ pan = {} /\ stall = {} /\ dead = {} /\ wedged = FALSE /\ backoff = FALSE
   /\ first = "none" /\ atCall = None /\ firstTx = None
   /\ prev = None /\ obs = [kind |-> "init"]
   /\ verdict = AllTrue
@@ -119,11 +121,11 @@ IsDup(q, type, called) ==
      /\ SEvery(q[k].called, called)
 
 (* A public mutation call from the (single) user goroutine on an idle machine *)
-CallF(type, called, check, v, nst, pn, stl) ==
+CallFD(type, called, check, v, nst, pn, stl, dd) ==
   /\ ~running
   /\ running' = TRUE
   /\ veto' = v /\ nest' = nst
-  /\ pan' = pn /\ stall' = stl
+  /\ pan' = pn /\ stall' = stl /\ dead' = dd
   \* a backing-off machine refuses the call: Canceled, nothing is queued
   \* (machine.go: `if m.disposing.Load() || m.Backoff() { return Canceled }`)
   /\ first' = IF backoff THEN "canceled" ELSE "none"
@@ -147,8 +149,10 @@ CallF(type, called, check, v, nst, pn, stl) ==
 SetBackoff(b) ==
   /\ ~running
   /\ backoff' = b
-  /\ UNCHANGED <<cfgVars, machVars, queue, running, veto, nest, pan, stall, wedged,
+  /\ UNCHANGED <<cfgVars, machVars, queue, running, veto, nest, pan, stall, dead, wedged,
                  first, atCall, firstTx, prev, obs, verdict, ncalls>>
+
+CallF(type, called, check, v, nst, pn, stl) == CallFD(type, called, check, v, nst, pn, stl, {})
 
 Call(type, called, check, v, nst) == CallF(type, called, check, v, nst, {}, {})
 
@@ -226,6 +230,17 @@ NegCandidates ==
                        [active |-> active, clock |-> clock], Head(queue), {})
        IN {r0.hlog[i] : i \in 1..r0.negLen}
 
+(* HandlerDeadline (machine.go:2437-2465): the stalled handler did not return   *)
+(* within the grace period either.  processHandlers forks a fresh handler      *)
+(* loop, DROPS THE WHOLE QUEUE (queue = nil, queueTicksPending = 0), queues     *)
+(* add:Exception through EvAddErr (an ordinary append: it gets the next queue   *)
+(* tick; mustParseStates folds S{Exception, Exception} into one) and only then  *)
+(* starts the backoff, so that this one mutation is let in.  The transition     *)
+(* itself ends like any timeout: Canceled.                                      *)
+DeadHit(r) == r.fired \cap dead # {}
+
+DeadlineQueue(qt) == <<Mut("add", <<"Exception">>, FALSE, FALSE, qt + 1)>>
+
 StepV(vt) ==
   /\ running /\ queue # <<>>
   /\ LET mut == Head(queue)
@@ -242,21 +257,22 @@ StepV(vt) ==
              /\ obs' = [kind |-> IF r.crash THEN "crash" ELSE "hang", mut |-> MutCore(mut)]
              /\ verdict' = [AllTrue EXCEPT !.nocrash = ~r.crash, !.nohang = ~r.hang]
              /\ queue' = <<>> /\ running' = FALSE
-             /\ UNCHANGED <<cfgVars, machVars, veto, nest, pan, stall, wedged, backoff, first, atCall,
+             /\ UNCHANGED <<cfgVars, machVars, veto, nest, pan, stall, dead, wedged, backoff, first, atCall,
                             firstTx, prev, ncalls>>
         ELSE
           /\ active' = r.active /\ clock' = r.clock /\ qtick' = qt
-          /\ wedged' = r.wedged /\ backoff' = backoff
+          /\ wedged' = r.wedged /\ backoff' = (backoff \/ DeadHit(r))
           /\ \E order \in AutoOrders(r.autoSet) :
-               queue' = excs \o (IF r.autoSet = {} THEN <<>>
-                                 ELSE <<Mut("add", order, TRUE, FALSE, 0)>>)
-                        \o NestedAppend(Tail(queue), o.hlog, qt)
+               queue' = IF DeadHit(r) THEN DeadlineQueue(qt)
+                        ELSE excs \o (IF r.autoSet = {} THEN <<>>
+                                      ELSE <<Mut("add", order, TRUE, FALSE, 0)>>)
+                             \o NestedAppend(Tail(queue), o.hlog, qt)
           /\ first' = IF first = "none" THEN r.result ELSE first
           /\ firstTx' = IF firstTx = None THEN o ELSE firstTx
           /\ prev' = IF obs.kind = "tx" THEN obs ELSE prev
           /\ obs' = o
           /\ verdict' = TxVerdict(IF obs.kind = "tx" THEN obs ELSE prev, o)
-          /\ pan' = pan \ r.fired /\ stall' = stall \ r.fired
+          /\ pan' = pan \ r.fired /\ stall' = stall \ r.fired /\ dead' = dead \ r.fired
           /\ nest' = NestLeft(o.hlog)
           /\ UNCHANGED <<cfgVars, running, veto, atCall, ncalls>>
 
@@ -279,7 +295,7 @@ Return ==
   /\ obs' = RetObs
   /\ verdict' = RetVerdict(IF obs.kind = "tx" THEN obs ELSE prev, RetObs)
   /\ first' = "none" /\ atCall' = None /\ firstTx' = None
-  /\ UNCHANGED <<cfgVars, machVars, queue, veto, nest, pan, stall, wedged, backoff, ncalls>>
+  /\ UNCHANGED <<cfgVars, machVars, queue, veto, nest, pan, stall, dead, wedged, backoff, ncalls>>
 
 Step == StepV(veto)
 
